@@ -1,0 +1,16 @@
+//go:build verif
+
+package queue
+
+import "github.com/lindb/lindb/pkg/queue/page"
+
+// VerifSetPageFactory replaces the page factory constructor of the queue (nil restores the
+// production constructor) so that the verification harness can wrap mapped pages and observe
+// the individual stores of an append. Build tag verif only.
+func VerifSetPageFactory(fn func(path string, pageSize int) (page.Factory, error)) {
+	if fn == nil {
+		newPageFactoryFunc = page.NewFactory
+		return
+	}
+	newPageFactoryFunc = fn
+}
